@@ -542,10 +542,17 @@ func (h kvHandler) HandleKvRawCompareAndSwap(req *kvrpcpb.RawCASRequest) *kvrpcp
 		}
 	}
 
+	// nil = the key must not exist; an expected empty value is a non-nil empty slice
+	expectedValue := req.GetPreviousValue()
+	if req.GetPreviousNotExist() {
+		expectedValue = nil
+	} else if expectedValue == nil {
+		expectedValue = []byte{}
+	}
 	oldValue, success, err := rawKV.RawCompareAndSwap(
 		req.Cf,
 		req.GetKey(),
-		req.GetPreviousValue(),
+		expectedValue,
 		req.GetValue(),
 	)
 	if err != nil {
